@@ -484,7 +484,7 @@ class Explorer:
         for e in rhs:
             if e.summ is None or e.summ is ACC:
                 continue
-            if not e.summ.first_begin:
+            if not e.summ.first_begin and not getattr(self.spec, "one_segment_statements", False):
                 self.add("O-segment", f"{self.spec.name}: fold `{p}` starts inside a `{e.summ.first_kind}` segment",
                          f"the accumulator fold `{p}` (by {p.func}) begins in the middle of a `{e.summ.first_kind}` segment: "
                          "the head of that segment was consumed separately", wit)
@@ -523,7 +523,7 @@ class Explorer:
                 self.cur_flags = cur.flags
                 r = self.reduce_all(cur.stack, "$end", ctx_words, None)
                 if r is None:
-                    self.add("O-accept", f"{spec.name}: end of statement not accepted in LR state {cur.stack[-1].state}",
+                    self.add("O-accept", f"{spec.name}: end of statement not accepted (segment {cur.step[1].kind if cur.step else '-'})",
                              "the statement is complete for the fragment but the parser has no action on end of input: "
                              "p_error is called and the statement is lost", self.render(ctx_words))
                 elif r != "RAISED" and r[1] == "ACCEPT":
